@@ -111,6 +111,11 @@ impl CodeCache {
     let mut block_ended = false;
     let mut index = ip;
     while !block_ended {
+      // A translation never continues into the end of its ROM region: what
+      // follows depends on the bank mapped there when it is reached.
+      if index != ip && !crate::mem::can_dynarec(index) {
+        break;
+      }
       let code_slice = self.get_executable_memory_segment(index, mem);
       if code_slice.len() < 1 {
         break;
